@@ -110,3 +110,58 @@ Proof.
     assert (P : 0 < df c) by (apply (concave_positive L N Nn dl du l1 HN HNn Hl Hu H1 c); lra).
     assert (0 < df c * (y - x)) by (apply Rmult_lt_0_compat; lra). lra.
 Qed.
+
+Corollary sqrt2_b0_increasing L N Nn al bl bu eps : 0 < N -> 0 < Nn -> 0 <= al ->
+  0 < bl -> 0 < red_bu N Nn bu al -> 0 <= eps ->
+  red_L L N Nn al 0 >= (red_bu N Nn bu al + bl) / 2 * (N / Nn) - eps -> 3 * eps * Nn / (2 * N) < Rmin bl (red_bu N Nn bu al) ->
+  forall x y, 0 <= x -> x < y -> y <= N -> S_sqrt2_b0_main L N Nn al bl 0 bu x < S_sqrt2_b0_main L N Nn al bl 0 bu y.
+Proof.
+  intros HN HNn Hal Hbl Hbu He HL Hs x y H0 Hxy HyN.
+  assert (R : red_bl N Nn bl 0 = bl) by (unfold red_bl, Rdiv; ring).
+  assert (G : forall i, S_sqrt2_b0_main L N Nn al bl 0 bu i = S_sqrt2_gen_main L N Nn al bl 0 bu i) by (intros i; rewrite gen_b0; ring).
+  rewrite !G. apply (sqrt2_gen_increasing L N Nn al bl 0 bu eps); rewrite ?R; try assumption; lra.
+Qed.
+
+(* The WHOLE function the code returns when there is a wall at the lower end (a_lower = 0): numpy.piecewise(i, [i < 0], [lower_extrap, main]) --
+   the exponential continuation into the guard cells glued to the main piece -- is strictly increasing on (-inf, N]; and symmetrically with a
+   wall at the upper end (a_upper = 0): piecewise(i, [i > N], [upper_extrap, main]) on [0, +inf). *)
+Definition sqrt2_a0_whole (L N Nn bl au bu i : R) : R :=
+  if Rlt_dec i 0 then S_sqrt2_a0_lower L N Nn 0 bl au bu i else S_sqrt2_a0_main L N Nn 0 bl au bu i.
+Definition sqrt2_b0_whole (L N Nn al bl bu i : R) : R :=
+  if Rlt_dec N i then S_sqrt2_b0_upper L N Nn al bl 0 bu i else S_sqrt2_b0_main L N Nn al bl 0 bu i.
+
+Theorem sqrt2_a0_whole_increasing L N Nn bl au bu eps : 0 < N -> 0 < Nn -> 0 <= au ->
+  S_sqrt2_a0_lower_B L N Nn 0 bl au bu <> 0 -> 0 < bl ->
+  0 < red_bl N Nn bl au -> 0 < bu -> 0 <= eps ->
+  red_L L N Nn 0 au >= (bu + red_bl N Nn bl au) / 2 * (N / Nn) - eps -> 3 * eps * Nn / (2 * N) < Rmin (red_bl N Nn bl au) bu ->
+  forall x y, x < y -> y <= N -> sqrt2_a0_whole L N Nn bl au bu x < sqrt2_a0_whole L N Nn bl au bu y.
+Proof.
+  intros HN HNn Hau HB Hb Hbl Hbu He HL Hs x y Hxy HyN. unfold sqrt2_a0_whole.
+  pose proof (sqrt2_a0_increasing L N Nn bl au bu eps HN HNn Hau Hbl Hbu He HL Hs) as M.
+  pose proof (lower_increasing L N Nn 0 bl au bu HNn HB Hb) as Lo.
+  pose proof (lower_value L N Nn 0 bl au bu) as L0. destruct (a0_ends L N Nn bl au bu HN HNn) as [M0 _].
+  destruct (Rlt_dec x 0) as [Hx|Hx]; destruct (Rlt_dec y 0) as [Hy|Hy].
+  - apply Lo; exact Hxy.
+  - pose proof (Lo x 0 Hx) as A. rewrite L0 in A. destruct (Req_dec y 0) as [E|E]; [subst y; lra|].
+    pose proof (M 0 y (Rle_refl 0)) as B. rewrite M0 in B. assert (0 < y) by lra. specialize (B H HyN). lra.
+  - lra.
+  - apply M; lra.
+Qed.
+
+Theorem sqrt2_b0_whole_increasing L N Nn al bl bu eps : 0 < N -> 0 < Nn -> 0 <= al ->
+  S_sqrt2_b0_upper_B L N Nn al bl 0 bu <> 0 -> 0 < bu ->
+  0 < bl -> 0 < red_bu N Nn bu al -> 0 <= eps ->
+  red_L L N Nn al 0 >= (red_bu N Nn bu al + bl) / 2 * (N / Nn) - eps -> 3 * eps * Nn / (2 * N) < Rmin bl (red_bu N Nn bu al) ->
+  forall x y, 0 <= x -> x < y -> sqrt2_b0_whole L N Nn al bl bu x < sqrt2_b0_whole L N Nn al bl bu y.
+Proof.
+  intros HN HNn Hal HB Hb Hbl Hbu He HL Hs x y H0 Hxy. unfold sqrt2_b0_whole.
+  pose proof (sqrt2_b0_increasing L N Nn al bl bu eps HN HNn Hal Hbl Hbu He HL Hs) as M.
+  pose proof (upper_increasing L N Nn al bl 0 bu HNn HB Hb) as Up.
+  pose proof (upper_value L N Nn al bl 0 bu) as U0. destruct (b0_ends L N Nn al bl bu HN HNn) as [_ MN].
+  destruct (Rlt_dec N x) as [Hx|Hx]; destruct (Rlt_dec N y) as [Hy|Hy].
+  - apply Up; exact Hxy.
+  - lra.
+  - pose proof (Up N y Hy) as A. rewrite U0 in A. destruct (Req_dec x N) as [E|E]; [subst x; lra|].
+    assert (Hlt : x < N) by lra. pose proof (M x N H0 Hlt (Rle_refl N)) as B. rewrite MN in B. lra.
+  - apply M; lra.
+Qed.
